@@ -3480,3 +3480,479 @@ def c20_nnt(env):
 
 REGISTRY.setdefault("C03", []).append(c03_nnt)
 REGISTRY.setdefault("C20", []).append(c20_nnt)
+
+
+# ======================================================================================
+# C14: every handle learns why it stopped -- the engines publish the stop reason, with the peer's
+# error, before anything that wakes the waiters (channel closure / the outcome oneshot / engine drop)
+# ======================================================================================
+
+
+def _coroutine_states(fn):
+    m = re.search(r"switchInt\(move _\d+\) -> \[(.*)\]", fn.blocks["bb0"][1])
+    if not m:
+        raise mir.Unsupported("coroutine dispatch not found in bb0")
+    return [int(x.split(":")[0]) for x in m.group(1).split(", ") if x.split(":")[0].isdigit() and int(x.split(":")[0]) not in (1, 2)]
+
+
+def _run_from_state(env, fn, k, models=None, max_visits=1, stop=r"^std::future::poll_fn::<"):
+    ex = env.executor(max_visits=max_visits)
+    ex.max_paths = 4000
+    ex.stop_calls = stop
+    if models:
+        ex.models = models
+    cor = mir.Agg("coroutine")
+    cor["#d"] = z3.BitVecVal(k, 64)
+    pin = mir.Agg("pin")
+    pin[0] = mir.Ref(("@cor",), True)
+    paths = ex.run(fn, {"_1": pin, "@cor": cor})
+    return ex, paths
+
+
+def _end_state(p):
+    c = p.locals.get("@cor")
+    d = c.get("#d") if isinstance(c, mir.Agg) else None
+    d = z3.simplify(d) if d is not None else None
+    return d.as_long() if d is not None and z3.is_bv_value(d) else None
+
+
+class _Batch:
+    """one query per (resume state, goal) instead of one per path: the conjunction of `path condition => goal`"""
+
+    def __init__(self, o, replay):
+        self.o, self.replay, self.items = o, replay, {}
+
+    def add(self, k, goal_name, hyps, goal):
+        self.items.setdefault((k, goal_name), []).append(z3.Implies(z3.And(*hyps) if hyps else z3.BoolVal(True), goal))
+
+    def flush(self):
+        for (k, g), imps in self.items.items():
+            self.o.prove(f"state{k}:{g} ({len(imps)} paths)", [], z3.And(*imps), replay=self.replay)
+
+
+def c14_connection_stop_reason(env):
+    o = Obligation("c14_connection_engine_publishes_the_stop_reason", "C14")
+    o.desc = "ConnectionEngine::event_loop, every way the task can finish: the stop reason is stored (set_connection_stop_reason) exactly once, BEFORE the control / session-frame channels are closed and before the outcome is sent to the ConnectionHandle (so every session that wakes on the closure can read it), and it says what the handle is told: RemoteClosedWithError when the result is Err(RemoteClosedWithError) -- carrying the peer's error --, RemoteClosed for Err(RemoteClosed), Closed otherwise"
+    fn = env.fn(r"^connection::engine::<impl at [^>]*>::event_loop::\{closure#0\}$")
+    o.functions = [fn.name]
+    states = _coroutine_states(fn)
+    o.bounds = [f"coroutine body from every resume state {states} through one poll, up to the start of the next loop iteration; inner loops cut after one visit (their continuations are the resume states); every result of every await"]
+    o.assumes = ["tokio mpsc Receiver::close / oneshot send wake the other side (tokio contract); OnceLock::set stores the first value"]
+    SR = env.enums["ConnectionStopReason"]
+    CE = env.enums["connection::error::Error"]
+
+    def replay(m):
+        cmds = ["scn stop_reason close_err", "scn stop_reason close"]
+        return cmds, (lambda outs: any(js.get("panic") or not js["as_expected"] for js in outs))
+
+    n = 0
+    B = _Batch(o, replay)
+    for k in states:
+        ex, paths = _run_from_state(env, fn, k)
+        for i, p in enumerate(paths):
+            if p.end != "return" or _end_state(p) != 1:
+                continue
+            n += 1
+            names = [c[0] for c in p.calls]
+            sets = [j for j, c in enumerate(names) if re.search(r"Connection>::set_connection_stop_reason$", c)]
+            closes = [j for j, c in enumerate(names) if re.search(r"mpsc::(bounded::)?Receiver::<.*>::close$", c)]
+            sends = [j for j, c in enumerate(names) if re.search(r"oneshot::Sender::<.*>::send$", c)]
+            H = ex.assumptions + p.cond
+            B.add(k, "the-reason-is-stored-exactly-once", H, z3.BoolVal(len(sets) == 1))
+            B.add(k, "before-the-channels-close-and-the-outcome-is-sent", H, z3.BoolVal(bool(sets) and all(sets[0] < j for j in closes + sends) and len(closes) >= 2 and len(sends) == 1))
+            if len(sets) == 1 and len(sends) == 1:
+                reason = p.calls[sets[0]][1][1]
+                result = p.calls[sends[0]][1][1]
+                try:
+                    rd = reason["#d"]
+                    res_d = result["#d"]
+                    errv = result.get(("as", "Err"))
+                    err_d = errv[0]["#d"] if isinstance(errv, mir.Agg) and isinstance(errv.get(0), mir.Agg) and "#d" in errv[0] else None
+                except (KeyError, TypeError):
+                    B.add(k, "the-reason-is-derived-from-the-result", H, z3.BoolVal(False))
+                    continue
+                if err_d is None:
+                    # the error payload was never inspected on this path: the reason must be the default
+                    B.add(k, "reason-matches-result", H + [res_d == 0], rd == SR["Closed"])
+                    B.add(k, "an-error-result-is-inspected", H, res_d == 0)
+                else:
+                    want = z3.If(z3.And(res_d == 1, err_d == CE["RemoteClosedWithError"]), z3.BitVecVal(SR["RemoteClosedWithError"], 64), z3.If(z3.And(res_d == 1, err_d == CE["RemoteClosed"]), z3.BitVecVal(SR["RemoteClosed"], 64), z3.BitVecVal(SR["Closed"], 64)))
+                    B.add(k, "reason-matches-result", H, rd == want)
+    B.flush()
+    o.cover("paths on which the engine task finishes", [z3.BoolVal(n > 0)])
+    return [o]
+
+
+def c14_session_stop_reason(env):
+    o = Obligation("c14_session_engine_publishes_the_stop_reason", "C14")
+    o.desc = "SessionEngine::event_loop, every way the task can finish: set_session_stop_reason has run before the task completes (completion drops the engine, i.e. the link relays and channels whose closure wakes the links) and before the outcome is sent to the SessionHandle -- also across the suspension at deallocate_session --, and the reason says why: ConnectionStopped(reason) / RemoteEndedWithError(peer's error) / RemoteEnded / Ended according to the loop's outcome"
+    fn = env.fn(r"^session::engine::<impl at [^>]*>::event_loop::\{closure#0\}$")
+    o.functions = [fn.name]
+    states = _coroutine_states(fn)
+    o.bounds = [f"coroutine body from every resume state {states} through one poll, up to the start of the next loop iteration; inner loops cut after one visit; suspension states reachable without the reason stored are followed to a fixed point"]
+    o.assumes = ["dropping the engine / oneshot send wake the other side (tokio contract)"]
+    SR = env.enums["SessionStopReason"]
+    SIE = env.enums["SessionInnerError"]
+
+    def m_from(ex_, st, callee, args, argvals, dty):
+        r = mir.Agg("SessionStopReason::ConnectionStopped")
+        r["#d"] = z3.BitVecVal(SR["ConnectionStopped"], 64)
+        return r
+
+    def replay(m):
+        cmds = ["scn stop_reason end_err", "scn stop_reason close_err"]
+        return cmds, (lambda outs: any(js.get("panic") or not js["as_expected"] for js in outs))
+
+    per_state = {}
+    exs = {}
+    for k in states:
+        ex, paths = _run_from_state(env, fn, k, models=[(r"^<(link::error::)?SessionStopReason as From<(connection::)?ConnectionStopReason>>::from$", m_from)])
+        per_state[k] = paths
+        exs[k] = ex
+    # states reachable with the reason NOT yet stored
+    not_yet = {0}
+    changed = True
+    while changed:
+        changed = False
+        for k in list(not_yet):
+            for p in per_state.get(k, []):
+                if p.end != "return":
+                    continue
+                if any(re.search(r"Session>::set_session_stop_reason$", c[0]) for c in p.calls):
+                    continue
+                e = _end_state(p)
+                if e is not None and e not in (1, 2) and e not in not_yet and e in per_state:
+                    not_yet.add(e)
+                    changed = True
+    n = 0
+    B = _Batch(o, replay)
+    outcome_place = fn.debug.get("outcome") if isinstance(fn.debug, dict) else None
+    for k in states:
+        ex = exs[k]
+        for i, p in enumerate(per_state[k]):
+            if p.end != "return":
+                continue
+            names = [c[0] for c in p.calls]
+            sets = [j for j, c in enumerate(names) if re.search(r"Session>::set_session_stop_reason$", c)]
+            sends = [j for j, c in enumerate(names) if re.search(r"oneshot::Sender::<.*>::send$", c)]
+            H = ex.assumptions + p.cond
+            done = _end_state(p) == 1
+            if done:
+                n += 1
+                B.add(k, "the-task-does-not-finish-without-the-reason", H, z3.BoolVal(bool(sets) or k not in not_yet))
+            if sends:
+                B.add(k, "the-outcome-is-sent-after-the-reason", H, z3.BoolVal((bool(sets) and sets[0] < sends[0]) or (not sets and k not in not_yet)))
+            B.add(k, "the-reason-is-stored-at-most-once-per-step", H, z3.BoolVal(len(sets) <= 1))
+            if len(sets) == 1:
+                reason = p.calls[sets[0]][1][1]
+                rd = reason.get("#d") if isinstance(reason, mir.Agg) else None
+                if rd is None or outcome_place is None:
+                    B.add(k, "the-reason-is-derived-from-the-outcome", H, z3.BoolVal(False))
+                    continue
+                try:
+                    oc = ex.read_place(p, outcome_place)
+                except Exception:  # noqa: BLE001
+                    oc = None
+                if not isinstance(oc, mir.Agg) or "#d" not in oc:
+                    B.add(k, "the-reason-is-derived-from-the-outcome", H, z3.BoolVal(False))
+                    continue
+                out_d = oc["#d"]
+                errv = oc.get(("as", "Err"))
+                err_d = errv[0]["#d"] if isinstance(errv, mir.Agg) and isinstance(errv.get(0), mir.Agg) and "#d" in errv[0] else None
+                if err_d is None:
+                    B.add(k, "reason-matches-outcome", H + [out_d == 0], rd == SR["Ended"])
+                    B.add(k, "an-error-outcome-is-inspected", H, out_d == 0)
+                else:
+                    want = z3.BitVecVal(SR["Ended"], 64)
+                    for ev, rv in (("RemoteEnded", "RemoteEnded"), ("RemoteEndedWithError", "RemoteEndedWithError"), ("ConnectionStopped", "ConnectionStopped")):
+                        want = z3.If(z3.And(out_d == 1, err_d == SIE[ev]), z3.BitVecVal(SR[rv], 64), want)
+                    B.add(k, "reason-matches-outcome", H, rd == want)
+    B.flush()
+    o.cover("paths on which the engine task finishes", [z3.BoolVal(n > 0)])
+    return [o]
+
+
+REGISTRY.setdefault("C14", []).append(c14_connection_stop_reason)
+REGISTRY.setdefault("C14", []).append(c14_session_stop_reason)
+
+
+# ======================================================================================
+# C18: work for a transaction is withheld from the plain session; work for an unknown id is refused
+# ======================================================================================
+
+
+def _txn_state_agg(env, tag):
+    """Option<DeliveryState> of a transfer / disposition with symbolic discriminants"""
+    DS = env.enums["DeliveryState"]
+    st = mir.Agg("state")
+    opt_d = z3.BitVec(f"{tag}.state.is_some", 64)
+    st["#d"] = opt_d
+    inner = mir.Agg("DeliveryState")
+    ds_d = z3.BitVec(f"{tag}.state.variant", 64)
+    inner["#d"] = ds_d
+    sm = mir.Agg("Some")
+    sm[0] = inner
+    st[("as", "Some")] = sm
+    return st, opt_d, ds_d, DS
+
+
+def c18_txn_session(env):
+    out = []
+    known = z3.Bool("txn_id.is_live")
+
+    def m_get(ex_, st, callee, args, argvals, dty):
+        r = mir.Agg("Option<&mut ResourceTransaction>")
+        r["#d"] = z3.If(known, z3.BitVecVal(1, 64), z3.BitVecVal(0, 64))
+        sm = mir.Agg("Some")
+        sm[0] = mir.Agg("txn")
+        r[("as", "Some")] = sm
+        return r
+
+    def m_map(ex_, st, callee, args, argvals, dty):
+        x = argvals[0]
+        r = mir.Agg("Option")
+        r["#d"] = x["#d"] if isinstance(x, mir.Agg) and "#d" in x else z3.BitVec(f"map#{ex_.ctx.n}", 64)
+        sm = mir.Agg("Some")
+        t = mir.Agg("(txn, txn_id)")
+        t[0] = mir.Agg("txn")
+        t[1] = mir.Agg("txn_id")
+        sm[0] = t
+        r[("as", "Some")] = sm
+        return r
+
+    models = [(r"OrderedMap::<.*ResourceTransaction>::get(_mut)?::<", m_get), (r"IndexMap::<.*ResourceTransaction.*>::get(_mut)?::<", m_get), (r"Option::<&mut ResourceTransaction>::map::<", m_map)]
+
+    def replay(m):
+        return "scn txn_late_post", (lambda js: js.get("panic") or js["late_delivered"] or js["late_accepted"] or not js["commit_delivered_in_order"] or js["delivered_before_commit"] or js["rolled_back_delivered"])
+
+    # -- posts
+    o = Obligation("c18_posts_are_withheld_or_refused", "C18")
+    o.desc = "TxnSession::on_incoming_transfer: a transfer that carries a transactional state is never handed to the plain session (i.e. to the receiving application) -- it is buffered under its transaction (ResourceTransaction::on_incoming_post) when the id names a live transaction, and refused with an error when it does not (never declared, already committed / rolled back / aborted); only transfers without a transactional state go to the plain session"
+    fn = env.fn(r"^transaction::session::<impl at [^>]*>::on_incoming_transfer::\{closure#0\}$")
+    o.functions = [fn.name]
+    o.bounds = ["coroutine body from its initial state through one poll; every delivery-state variant (or none); the id live or not; the plain session's future ready or pending"]
+    o.assumes = ["OrderedMap::get_mut(id) is Some exactly for the ids of live transactions (TransactionManager::txns holds exactly the declared, undischarged ones: C18's coordinator obligations are outside)"]
+    ex = env.executor(max_visits=3)
+    ex.models = models
+    T = mir.Agg("transfer")
+    stt, opt_d, ds_d, DS = _txn_state_agg(env, "transfer")
+    T[env.fidx("Transfer", "state")] = stt
+    pin, cor = coroutine_start(env, "@self", {1: T, 2: mir.Agg("payload")})
+    paths = ex.run(fn, {"_1": pin, "@cor": cor, "@self": mir.Agg("txn_session")})
+    hyp = ex.assumptions + [z3.ULE(opt_d, 1), state_valid(env, ds_d, "DeliveryState")]
+    is_txn = z3.And(opt_d == 1, ds_d == DS["TransactionalState"])
+    n = 0
+    for i, p in enumerate(paths):
+        if p.end != "return":
+            continue
+        n += 1
+        H = hyp + p.cond
+        plain = count_calls(p, r"Session>::on_incoming_transfer$")
+        posts = count_calls(p, r"ResourceTransaction::on_incoming_post$")
+        o.prove(f"path{i}:transactional-work-never-reaches-the-plain-session", H + [is_txn], z3.BoolVal(plain == 0), replay=replay)
+        o.prove(f"path{i}:work-for-an-unknown-id-is-not-buffered", H + [is_txn, z3.Not(known)], z3.BoolVal(posts == 0), replay=replay)
+        o.prove(f"path{i}:work-for-a-live-id-is-buffered-once", H + [is_txn, known], z3.BoolVal(posts == 1), replay=replay)
+        o.prove(f"path{i}:plain-work-goes-to-the-plain-session", H + [z3.Not(is_txn)], z3.BoolVal(plain == 1 and posts == 0), replay=replay)
+        rdy, is_ok = poll_ready_result(p.ret)
+        if is_ok is not None:
+            o.prove(f"path{i}:work-for-an-unknown-id-is-refused", H + [is_txn, z3.Not(known), rdy], z3.Not(is_ok), replay=replay)
+    o.cover("paths", [z3.BoolVal(n > 2)])
+    out.append(o)
+
+    # -- retirements
+    o = Obligation("c18_retirements_are_withheld_or_refused", "C18")
+    o.desc = "TxnSession::on_incoming_disposition: a disposition that carries a transactional state is buffered under its live transaction or refused for an unknown id; it is never applied through the plain session before the discharge"
+    fn = env.fn(r"^transaction::session::<impl at [^>]*>::on_incoming_disposition$")
+    o.functions = [fn.name]
+    o.bounds = ["one call; every delivery-state variant (or none); the id live or not"]
+    o.assumes = ["as for posts"]
+    ex = env.executor(max_visits=3)
+    ex.models = models
+    D = mir.Agg("disposition")
+    stt, opt_d, ds_d, DS = _txn_state_agg(env, "disposition")
+    D[env.fidx("fe2o3_amqp_types::performatives::Disposition", "state")] = stt
+    paths = ex.run(fn, {"_1": mir.Ref(("@self",), True), "@self": mir.Agg("txn_session"), "_2": D})
+    hyp = ex.assumptions + [z3.ULE(opt_d, 1), state_valid(env, ds_d, "DeliveryState")]
+    is_txn = z3.And(opt_d == 1, ds_d == DS["TransactionalState"])
+    n = 0
+    for i, p in enumerate(paths):
+        if p.end != "return" or not isinstance(p.ret, mir.Agg):
+            continue
+        n += 1
+        H = hyp + p.cond
+        plain = count_calls(p, r"Session>::on_incoming_disposition$")
+        pushes = count_calls(p, r"Vec::<TxnWorkFrame>::push$")
+        o.prove(f"path{i}:transactional-retirement-never-reaches-the-plain-session", H + [is_txn], z3.BoolVal(plain == 0), replay=replay)
+        o.prove(f"path{i}:retirement-for-a-live-id-is-buffered-once", H + [is_txn, known], z3.BoolVal(pushes == 1), replay=replay)
+        o.prove(f"path{i}:retirement-for-an-unknown-id-is-refused", H + [is_txn, z3.Not(known)], z3.And(z3.BoolVal(pushes == 0), p.ret["#d"] != 0) if "#d" in p.ret else z3.BoolVal(False), replay=replay)
+        o.prove(f"path{i}:plain-retirement-goes-to-the-plain-session", H + [z3.Not(is_txn)], z3.BoolVal(plain == 1 and pushes == 0), replay=replay)
+    o.cover("paths", [z3.BoolVal(n > 2)])
+    out.append(o)
+    return out
+
+
+REGISTRY.setdefault("C18", []).append(c18_txn_session)
+
+
+# ======================================================================================
+# C02: the settling echo covers every delivery the receiver reported an outcome for
+# ======================================================================================
+
+
+def c02_settling_echo_covers_all(env):
+    o = Obligation("c02_settling_echo_covers_every_reported_delivery", "C02")
+    o.desc = "Session::on_incoming_disposition, non-settled disposition from a receiver that settles second: the delivery-ids whose links ask for a settling echo are cut into runs of consecutive ids and one settling disposition is emitted per run; the runs emitted are exactly a partition of the whole list -- the first starts at the beginning, each starts where the previous ended, the last ends at the end of the list -- so no reported delivery is left without its settling disposition (the receiver would keep it unsettled for ever)"
+    fn = env.fn(r"^session::<impl at fe2o3-amqp/src/session/mod\.rs[^>]*>::on_incoming_disposition$")
+    o.functions = [fn.name]
+    o.bounds = ["one call; the id list grows by at most 3 pushes (loop unrolled 3 times), at most 3 chunk boundaries; which ids ask for an echo is arbitrary"]
+    o.assumes = ["consecutive_chunk_indices returns strictly increasing interior indices (1..len-1) -- its closure is a two-line window test; Vec/slice indexing contracts of std"]
+    ex = env.executor(max_visits=4)
+    ex.max_paths = 6000
+    n64 = lambda v: z3.BitVecVal(v, 64)  # noqa: E731
+
+    def tgt(ex_, st, v):
+        k = 0
+        while isinstance(v, mir.Ref) and k < 4:
+            cont, key = ex_.resolve(st, list(v.path))
+            v = cont.get(key)
+            k += 1
+        return v
+
+    def new_slice(st, ln, tag):
+        name = f"@slice{len([x for x in st.locals if str(x).startswith('@slice')])}"
+        a = mir.Agg(tag)
+        a["#len"] = ln
+        st.locals[name] = a
+        return mir.Ref((name,), False)
+
+    def m_new(ex_, st, callee, args, argvals, dty):
+        a = mir.Agg("ids")
+        a["@len"] = n64(0)
+        return a
+
+    def m_push(ex_, st, callee, args, argvals, dty):
+        v = tgt(ex_, st, argvals[0])
+        if isinstance(v, mir.Agg) and "@len" in v:
+            v["@len"] = v["@len"] + 1
+        return mir.Agg("()")
+
+    def m_full(ex_, st, callee, args, argvals, dty):
+        v = tgt(ex_, st, argvals[0])
+        ln = v["@len"] if isinstance(v, mir.Agg) and "@len" in v else ex_.ctx.fresh("usize", "len")
+        return new_slice(st, ln, "all ids")
+
+    def m_chunks(ex_, st, callee, args, argvals, dty):
+        s_ = tgt(ex_, st, argvals[0])
+        a = mir.Agg("chunk_inds")
+        a["@n"] = s_["#len"] if isinstance(s_, mir.Agg) and "#len" in s_ else ex_.ctx.fresh("usize", "len")
+        a["@prev"] = n64(0)
+        return a
+
+    def m_into_iter(ex_, st, callee, args, argvals, dty):
+        return argvals[0]
+
+    def m_next(ex_, st, callee, args, argvals, dty):
+        it = tgt(ex_, st, argvals[0])
+        r = mir.Agg("Option<usize>")
+        d = z3.BitVec(f"chunk.has_next#{ex_.ctx.n}", 64)
+        ind = z3.BitVec(f"chunk.index#{ex_.ctx.n}", 64)
+        ex_.ctx.n += 1
+        r["#d"] = d
+        sm = mir.Agg("Some")
+        sm[0] = ind
+        r[("as", "Some")] = sm
+        ex_.assumptions.append(z3.ULE(d, 1))
+        if isinstance(it, mir.Agg) and "@n" in it:
+            ex_.assumptions.append(z3.Implies(d == 1, z3.And(z3.ULT(it["@prev"], ind), z3.ULT(ind, it["@n"]))))
+            it["@prev"] = z3.If(d == 1, ind, it["@prev"])
+        return r
+
+    def m_index_range(ex_, st, callee, args, argvals, dty):
+        rng = argvals[1]
+        s0, e0 = rng.get(0), rng.get(1)
+        return new_slice(st, e0 - s0, "run")
+
+    def m_deref(ex_, st, callee, args, argvals, dty):
+        v = tgt(ex_, st, argvals[0])
+        ln = v["@len"] if isinstance(v, mir.Agg) and "@len" in v else ex_.ctx.fresh("usize", "len")
+        return new_slice(st, ln, "all ids")
+
+    def m_get_from(ex_, st, callee, args, argvals, dty):
+        s_ = tgt(ex_, st, argvals[0])
+        start = argvals[1].get(0)
+        ln = s_["#len"]
+        r = mir.Agg("Option<&[u32]>")
+        r["#d"] = z3.If(z3.ULE(start, ln), n64(1), n64(0))
+        sm = mir.Agg("Some")
+        ref = new_slice(st, ln - start, "tail")
+        sm[0] = ref
+        r[("as", "Some")] = sm
+        r["@tail_from"] = start
+        r["@tail_len"] = ln - start
+        return r
+
+    def m_filter(ex_, st, callee, args, argvals, dty):
+        x = argvals[0]
+        r = mir.Agg("Option<&[u32]>")
+        r["#d"] = z3.If(z3.And(x["#d"] == 1, x["@tail_len"] != 0), n64(1), n64(0))
+        r[("as", "Some")] = x[("as", "Some")]
+        r["@tail_from"] = x["@tail_from"]
+        return r
+
+    ex.models = [
+        (r"^Vec::<u32>::new$", m_new),
+        (r"^Vec::<u32>::push$", m_push),
+        (r"^<Vec<u32> as Index<(std::ops::)?RangeFull>>::index$", m_full),
+        (r"^session::consecutive_chunk_indices$", m_chunks),
+        (r"^<Vec<usize> as IntoIterator>::into_iter$", m_into_iter),
+        (r"^<std::vec::IntoIter<usize> as Iterator>::next$", m_next),
+        (r"^<Vec<u32> as Index<(std::ops::)?Range<usize>>>::index$", m_index_range),
+        (r"^<Vec<u32> as Deref>::deref$", m_deref),
+        (r"^core::slice::<impl \[u32\]>::get::<(std::ops::)?RangeFrom<usize>>$", m_get_from),
+        (r"^(std::option::)?Option::<&\[u32\]>::filter::<", m_filter),
+    ]
+    D = mir.Agg("disposition")
+    settled = z3.Bool("disposition.settled")
+    D[env.fidx("fe2o3_amqp_types::performatives::Disposition", "settled")] = settled
+    paths = ex.run(fn, {"_1": mir.Ref(("@self",), True), "@self": mir.Agg("session"), "_2": D})
+    hyp = ex.assumptions
+
+    def replay(m):
+        cmds = ["scn settle_second 1", "scn settle_second 3"]
+        return cmds, (lambda outs: any(js.get("panic") or not js["all_settled_by_sender"] or js["accepted"] != js["n"] for js in outs))
+
+    n = 0
+    for i, p in enumerate(paths):
+        if p.end != "return":
+            continue
+        ch = [c for c in p.calls if re.search(r"^session::consecutive_chunk_indices$", c[0])]
+        if not ch:
+            continue
+        n += 1
+        H = hyp + p.cond
+        total = ch[0][3]["@n"]
+        runs = []
+        for c in p.calls:
+            if re.search(r"^<Vec<u32> as Index<(std::ops::)?Range<usize>>>::index$", c[0]):
+                runs.append((c[1][1].get(0), c[1][1].get(1), None))
+            elif re.search(r"^(std::option::)?Option::<&\[u32\]>::filter::<", c[0]) and isinstance(c[3], mir.Agg):
+                runs.append((c[3]["@tail_from"], total, c[3]["#d"] == 1))
+        pushes = count_calls(p, r"^Vec::<(fe2o3_amqp_types::performatives::)?Disposition>::push$")
+        # coverage: walk the runs in order
+        covered = n64(0)
+        ok = z3.BoolVal(True)
+        emitted = n64(0)
+        for (s0, e0, present) in runs:
+            here = z3.BoolVal(True) if present is None else present
+            ok = z3.And(ok, z3.Implies(here, s0 == covered))
+            covered = z3.If(here, e0, covered)
+            emitted = emitted + z3.If(here, n64(1), n64(0))
+        o.prove(f"path{i}:the-runs-partition-the-list", H, z3.And(ok, covered == total), replay=replay)
+        o.prove(f"path{i}:one-settling-disposition-per-run", H, emitted == n64(pushes), replay=replay)
+        for (dsc, okc, c) in p.obligations:
+            o.prove(f"path{i}:{dsc}", hyp + c, okc, replay=replay)
+    o.cover("paths through the echo branch", [z3.BoolVal(n > 0)])
+    return [o]
+
+
+REGISTRY.setdefault("C02", []).append(c02_settling_echo_covers_all)
